@@ -37,8 +37,16 @@ def run(ck):
     ck.distinct = sys_scn + ck.stats.get("model_distinct", 0)
     if ex:
         ck.samples = [l for l in ex if l.startswith("direct ")][:4] + ck.samples[:3]
-    ck.rule = ("hostile peers (random bytes, truncated frames at every third cut, oversized and overlong remaining lengths, raw encodings the "
-               "library refuses to produce: empty / NUL / wildcard / 64 KiB topics, QoS 3, id 0, every out-of-protocol packet first and in random "
-               "sequences, connect/disconnect storms, a non-acknowledging catch-all subscriber) next to three witness clients exchanging numbered "
-               "traffic (connected, complete, ordered), backend shutdown racing with setup, backend calls failing, Setup/Terminate/closed-signal "
-               "accounting per connection, goroutine count after shutdown; plus clause c14_lifecycle on broker-connection traces")
+    ck.rule = ("whole broker (go/cmd/system c14): hostile peers (random bytes, truncated frames at every third cut, bit-flipped sessions, a session dribbled "
+               "byte by byte, oversized and overlong remaining lengths, really sent packets at the 1/2/3/4-byte length boundaries and around the 8 MiB read "
+               "limit, raw encodings the library refuses to produce: empty / NUL / wildcard / '$' / 64 KiB / 32767-level topics and filters, invalid "
+               "filters then publishes along them, QoS 3, id 0, duplicate and maximal ids, every out-of-protocol packet first and after CONNECT, random "
+               "sequences, anonymous clients, connect/disconnect storms, a non-acknowledging catch-all subscriber) next to four witness clients (one "
+               "anonymous) exchanging numbered traffic: witness_connected, witness_traffic, witness_order, witness_probe (QoS 2, new subscription, ping "
+               "afterwards), offender_closed for 30 definite protocol violations; a publisher parked behind a stalled subscriber's full queue released "
+               "when that subscriber closes / disconnects / runs into the token timeout, clean and persistent (publisher_released); silent peers "
+               "(keepalive_enforced, silent_peer_dropped); rejected credentials (rejected_released); a backend call failing at each of 11 call sites "
+               "for one client (fault_closes_offender, fault_will); backend shutdown racing with setup (random, and gated between Authenticate and "
+               "Setup, with six live clients, during a takeover, before a late connection: shutdown_closes_all, late_connection_released); per "
+               "scenario lifecycle (every accepted connection: closed signal, Terminate exactly once / at most once / never as due), shutdown, "
+               "goroutines, log_lifecycle, log_unique, log_will; process_survives; plus clause c14_lifecycle on broker-connection traces")
